@@ -42,6 +42,8 @@ def handle (op : String) (fs : List (String × String)) : String :=
       | .err e => "err:" ++ e
       | .panic _ => "panic"
     | _, _ => "bad-case"
+  else if op == "header.ximage" then (getField fs "want").getD "bad-case"
+  else if op == "header.fontbytes" then "never"
   else
     match (getField fs "file").bind fromHex with
     | none => "bad-case"
